@@ -116,6 +116,21 @@ CLAIMED = {
             "Trusted: Lean kernel + propext/Quot.sound/Classical.choice; harness generators; collision resistance of SHA-256d is an "
             "assumption (named in the theorem), not proved.",
             "§5 C06"),
+    "C17": ("proof",
+            "Lean 4 theorems (iterations and output size of every counted loop bounded by input length on the parser models) + runtime monitor of all parse entry points",
+            "Props/C17.lean proves on the Lean models of the parsers (tied to embit by the C03/C04/C05/C06 correspondences): all are "
+            "total; whatever a count field says a counted loop body runs at most |input|+1 times and a successful parse builds at "
+            "most |input| elements (transactions, witnesses, scopes, pairs); an accepted PSBT — also version 2 with attacker-chosen "
+            "counts — has at most |input| scopes; taproot leaf-hash counts are bounded by the value length; the streamed previous-tx "
+            "reader does no more than the full parser. PARTIAL: CPython's real time and memory cannot be proved; they are OBSERVED on "
+            "every run: 36 public parse entry points (binary and text, incl. descriptors/miniscript, mnemonics, shares, Liquid) on "
+            "structure-aware hostile mutants and random data up to 64 KiB inside a sacrificial worker with address-space limit and "
+            "per-call timer; outcome must be value or ordinary exception within a time/peak-memory budget linear in the input size; "
+            "a crash of the worker is a failure.",
+            "Trusted: Lean kernel + propext/Quot.sound/Classical.choice; the monitor (tracemalloc peak, perf_counter, RLIMIT_AS); budget "
+            "constants are generous (quadratic big-integer/base58 work below 64 KiB passes by design); text parsers have no Lean "
+            "cost model.",
+            "§5 C17"),
     "C13": ("proof",
             "Lean 4 theorems (typing judgement, script template and length, all expression trees by structural induction) "
             "+ fact extraction of the class table + model/implementation/spec correspondence",
